@@ -26,6 +26,10 @@ import GormModel.Gen.ReadPathFacts
 import GormModel.Model.ScanPool
 import GormModel.Lemmas.ScanPool
 import GormModel.Gen.ScanPoolFacts
+import GormModel.Model.ReadSelect
+import GormModel.Model.KeyCursor
+import GormModel.Lemmas.KeyCursor
+import GormModel.Gen.ReadSelectFacts
 namespace Gorm
 
 /-! ## Limit / Offset merge as a fold over ANY call sequence -/
@@ -782,5 +786,219 @@ example :
     proj 0 es = resultSets (fun _ => false) sk [([0, 1], 2)] ∧ proj 1 es = resultSets (fun _ => false) sk [([0, 1], 1)]
       ∧ anyPooledRead GState.init es = false := by
   decide
+
+/-! ## Round 4 — SELECT lists: which list each finisher sends, and the VALUES of computed columns
+
+  `Gorm.ReadSelect` (Model/ReadSelect.lean): the chain's SELECT lives in `Statement.Selects` (string calls) and / or
+  `Clauses["SELECT"]` (calls with bind arguments, `Clauses(clause.Select{…})`); each finisher installs its own list with
+  AddClause or AddClauseIfNotExists — which one is REGENERATED (`Facts.current`, Gen/ReadSelectFacts.lean).
+  "Report the same rows and values" for a chain with computed columns means: every path evaluates the SAME list. -/
+
+open ReadSelect in
+/-- The tree being verified uses the variants the property needs: BuildQuerySQL and Pluck only install a SELECT when
+    the chain carries none (Pluck moreover only when `len(Selects) != 1`), Count overwrites and restores. -/
+theorem C15_select_facts_current_tree : Facts.current = Facts.good := by decide
+
+/-- Every operation of the read finishers (and BuildQuerySQL) on the SELECT / LIMIT / ORDER BY clauses, in source order —
+    the regenerated table equals the one the models of Model/ReadPaths.lean, Model/Batches.lean and Model/ReadSelect.lean
+    transcribe: First/Last = Limit(1) + Order(pk [DESC]), Take = Limit(1), FindInBatches = Order(pk), Offset(-1),
+    Limit(batchSize); Count = deferred restore / delete of SELECT, AddClause ×2, delete + deferred restore of ORDER BY;
+    Pluck and BuildQuerySQL = AddClauseIfNotExists. -/
+theorem C15_read_clause_ops_current_tree :
+    Gen.readClauseOps =
+      [("First", "LIMIT", "chain.Limit(1)"),
+       ("First", "ORDER BY", "chain.Order(clause.OrderByColumn{ Column: clause.Column{Table: clause.CurrentTable, Name: clause.PrimaryKey}, })"),
+       ("Take", "LIMIT", "chain.Limit(1)"),
+       ("Last", "LIMIT", "chain.Limit(1)"),
+       ("Last", "ORDER BY", "chain.Order(clause.OrderByColumn{ Column: clause.Column{Table: clause.CurrentTable, Name: clause.PrimaryKey}, Desc: true, })"),
+       ("FindInBatches", "ORDER BY", "chain.Order(clause.OrderByColumn{ Column: clause.Column{Table: clause.CurrentTable, Name: clause.PrimaryKey}, })"),
+       ("FindInBatches", "LIMIT", "chain.Offset(-1)"),
+       ("FindInBatches", "LIMIT", "chain.Limit(batchSize)"),
+       ("Count", "SELECT", "restore.deferred"),
+       ("Count", "SELECT", "delete.deferred"),
+       ("Count", "SELECT", "AddClause"),
+       ("Count", "SELECT", "AddClause"),
+       ("Count", "ORDER BY", "delete"),
+       ("Count", "ORDER BY", "restore.deferred"),
+       ("Pluck", "SELECT", "AddClauseIfNotExists"),
+       ("BuildQuerySQL", "SELECT", "AddClauseIfNotExists")] := by
+  decide
+
+open ReadSelect in
+/-- However the chain's SELECT was given — strings, `?` / named arguments, user clauses, in ANY sequence of calls from
+    any earlier state — the list Find (First, Take, Last, Rows, Scan, FindInBatches) sends is the one the LAST call asked
+    for. -/
+theorem C15_select_later_call_wins {ι : Type} (st : SelState ι) (cs : List (SelCall ι)) (c : SelCall ι) :
+    find Facts.good (st.calls (cs ++ [c])) none = c.asked := by
+  simp only [SelState.calls, List.foldl_append, List.foldl_cons, List.foldl_nil]
+  cases c <;> simp [find, SelState.query, SelState.call, SelState.add, SelState.computed, SelCall.asked, Facts.good]
+
+open ReadSelect in
+/-- Pluck on a chain that carries a SELECT (one `Selects` entry, or a clause — the parameterised spellings live ONLY
+    there) sends the chain's list, whatever column name it was given: for every row it reports exactly the values Find
+    reports, computed columns included. -/
+theorem C15_pluck_reads_chain_select {ι ρ ν : Type} (st : SelState ι) (c : ι)
+    (h : st.selects.length = 1 ∨ st.clause.isSome = true) (ev : ι → ρ → ν) (all : List ι) (cnt : ν) (r : ρ) :
+    pluck Facts.good st c = find Facts.good st none ∧
+      (pluck Facts.good st c).eval ev all cnt r = (find Facts.good st none).eval ev all cnt r := by
+  have key : pluck Facts.good st c = find Facts.good st none := by
+    rcases h with h | h
+    · simp [pluck, find, pluckState, Facts.good, h]
+    · cases hc : st.clause with
+      | none => simp [hc] at h
+      | some l =>
+        by_cases hl : st.selects.length = 1
+        · simp [pluck, find, pluckState, Facts.good, hl]
+        · simp [pluck, find, pluckState, Facts.good, hl, SelState.add, SelState.query, hc]
+  exact ⟨key, by rw [key]⟩
+
+open ReadSelect in
+/-- … in particular after any sequence of Select calls that ends in a single-entry string Select, a Select with bind
+    arguments, or a user clause. -/
+theorem C15_select_values_agree {ι ρ ν : Type} (st : SelState ι) (cs : List (SelCall ι)) (c : SelCall ι) (p : ι)
+    (hc : ∀ es, c = .strings es → es.length = 1) (ev : ι → ρ → ν) (all : List ι) (cnt : ν) (r : ρ) :
+    (pluck Facts.good (st.calls (cs ++ [c])) p).eval ev all cnt r = c.asked.eval ev all cnt r := by
+  have h : (st.calls (cs ++ [c])).selects.length = 1 ∨ (st.calls (cs ++ [c])).clause.isSome = true := by
+    simp only [SelState.calls, List.foldl_append, List.foldl_cons, List.foldl_nil]
+    cases c with
+    | strings es => left; simpa [SelState.call] using hc es rfl
+    | expr is => right; simp [SelState.call]
+    | clause l => right; simp [SelState.call]
+  rw [(C15_pluck_reads_chain_select _ p h ev all cnt r).2, C15_select_later_call_wins]
+
+open ReadSelect in
+/-- On a chain without SELECT, Pluck(c) reports column c of every row. -/
+theorem C15_pluck_plain_column {ι ρ ν : Type} (c : ι) (ev : ι → ρ → ν) (all : List ι) (cnt : ν) (r : ρ) :
+    (pluck Facts.good ({} : SelState ι) c).eval ev all cnt r = [ev c r] := by
+  simp [pluck, pluckState, Facts.good, SelState.add, SelState.query, SelList.eval]
+
+open ReadSelect in
+/-- NECESSITY of AddClauseIfNotExists in Pluck: with AddClause a parameterised chain SELECT (item 7 = an aliased
+    expression) is overwritten by the plucked column (item 1 = the raw column of that name). -/
+theorem C15_pluck_overwrite_counterexample :
+    pluck { Facts.good with pluckAdd := .always } ({ clause := some (.list [7]) } : SelState Nat) 1 = .list [1] ∧
+    find { Facts.good with pluckAdd := .always } ({ clause := some (.list [7]) } : SelState Nat) none = .list [7] := by
+  decide
+
+open ReadSelect in
+/-- Count sends its own expression whatever SELECT the chain carries, and the handle it returns carries the chain's
+    SELECT again (a following Find evaluates the same list as before). -/
+theorem C15_count_select_restored {ι : Type} (st : SelState ι) (dest : Option (List ι)) :
+    countQuery Facts.good st = .count ∧ afterCount Facts.good st = st ∧
+      find Facts.good (afterCount Facts.good st) dest = find Facts.good st dest := by
+  refine ⟨?_, rfl, rfl⟩
+  cases hc : st.clause <;> simp [countQuery, SelState.add, SelState.query, Facts.good, hc]
+
+open ReadSelect in
+/-- NECESSITY: Count with AddClauseIfNotExists would send the chain's parameterised list instead of a count; Count
+    without the restore leaves `count` on the returned handle. -/
+theorem C15_count_variants_counterexample :
+    countQuery { Facts.good with countAdd := .ifAbsent } ({ clause := some (.list [7]) } : SelState Nat) = .list [7] ∧
+    find Facts.good (afterCount { Facts.good with countRestores := false } ({ selects := [[3]] } : SelState Nat)) none = .count := by
+  decide
+
+open ReadSelect in
+/-- The same statements for the tree being verified (fails to build when a regenerated variant changes). -/
+theorem C15_select_current_tree {ι ρ ν : Type} (st : SelState ι) (c : ι)
+    (h : st.selects.length = 1 ∨ st.clause.isSome = true) (ev : ι → ρ → ν) (all : List ι) (cnt : ν) (r : ρ) :
+    (pluck Facts.current st c).eval ev all cnt r = (find Facts.current st none).eval ev all cnt r ∧
+      countQuery Facts.current st = .count ∧ afterCount Facts.current st = st := by
+  rw [C15_select_facts_current_tree]
+  exact ⟨(C15_pluck_reads_chain_select st c h ev all cnt r).2, (C15_count_select_restored st none).1, rfl⟩
+
+/-! ### map destinations report every result column's own value -/
+
+open ReadSelect in
+/-- scan.go prepareValues → rows.Scan → scanIntoMap with one holder per result column: the map row carries, for every
+    column (model field or not, any number of computed columns), exactly the value the driver delivered. -/
+theorem C15_map_row_values_exact {ν : Type} (isField : List Bool) (vals : List ν) (hl : isField.length = vals.length) :
+    mapRow (prepareHolders true isField) vals = vals.map some :=
+  mapRow_nodup _ _ (prepareHolders_perColumn_nodup isField) (by rw [prepareHolders_length]; exact hl)
+
+open ReadSelect in
+/-- … for the tree being verified: the regenerated fact says every `values[idx] = …` of prepareValues allocates inside
+    the loop over the columns. -/
+theorem C15_map_row_values_current_tree {ν : Type} (isField : List Bool) (vals : List ν)
+    (hl : isField.length = vals.length) :
+    Gen.prepareValuesPerColumn = true ∧ mapRow (prepareHolders Gen.prepareValuesPerColumn isField) vals = vals.map some :=
+  ⟨by decide, by
+    have : Gen.prepareValuesPerColumn = true := by decide
+    rw [this]; exact C15_map_row_values_exact isField vals hl⟩
+
+open ReadSelect in
+/-- NECESSITY: one holder shared by the columns that are no model fields — with two computed columns the map reports the
+    LAST one's value under both keys (columns: id, dbl, name, uname). -/
+theorem C15_map_row_shared_holder_counterexample :
+    mapRow (prepareHolders false [true, false, true, false]) ["1", "14", "ann", "ANN"]
+      = [some "1", some "ANN", some "ann", some "ANN"] := by
+  decide
+
+/-! ### Count's expression for a one-entry string Select — finding F7g-C15-count-alias -/
+
+open ReadSelect in
+/-- F7g: for `Select("3 AS k7")` Count quotes the WHOLE string as a column name — which no table of the suite has —
+    while Find evaluates the expression. -/
+theorem C15_count_alias_counterexample :
+    countColumn "3 AS k7" ["3", "AS", "k7"] = some "3 AS k7" ∧
+      "3 AS k7" ∉ ["id", "name", "age", "score", "grp"] := by
+  decide
+
+open ReadSelect in
+/-- Outside the pattern of F7g the expression stays `count(*)` (no column is named): Count = number of rows. -/
+theorem C15_count_expr_partial (entry : String) (fields : List String) (h : countsWholeString fields = false) :
+    countColumn entry fields = none := by
+  simp [countColumn, h]
+
+/-! ## Round 4 — FindInBatches on key shapes other than one unique column (Model/KeyCursor.lean) -/
+
+open KeyCursor in
+/-- A schema without prioritized primary field (composite key without ID / auto-increment member, or no key): the
+    loop never pages on anything else — what it hands out is a PREFIX of the table, and whenever it reports no
+    ErrPrimaryKeyRequired it has delivered every row, once each, in order.  (An honest refusal, never a silent loss.) -/
+theorem C15_keys_no_cursor_honest (rows : List (Nat × Nat)) (batch fuel : Nat) (hb : 0 < batch) :
+    (batchesK false rows batch (fuel + 1) none).delivered <+: rows.map (·.1) ∧
+      ((batchesK false rows batch (fuel + 1) none).pkRequired = false →
+        (batchesK false rows batch (fuel + 1) none).delivered = rows.map (·.1)) :=
+  ⟨noCursor_prefix rows batch (fuel + 1) none rfl, noCursor_complete rows batch fuel hb⟩
+
+open KeyCursor in
+/-- A cursor column that is unique (strictly increasing in delivery order) and never zero — string keys, keys not named
+    ID, `column:`-renamed keys: every row exactly once, in key order, no error, batches non-empty and ≤ the request,
+    for every table size and batch size. -/
+theorem C15_keys_unique_cursor_exact (rows : List (Nat × Nat)) (batch : Nat) (hb : 0 < batch)
+    (hs : rows.Pairwise (fun a b => a.2 < b.2)) (hp : ∀ r ∈ rows, 0 < r.2) :
+    let o := batchesK true rows batch (rows.length + 1) none
+    o.delivered = rows.map (·.1) ∧ o.pkRequired = false ∧ o.fuelOut = false ∧
+      ∀ b ∈ o.batches, b ≠ [] ∧ b.length ≤ batch :=
+  uniqueCursor_exact rows batch hb hs hp
+
+open KeyCursor in
+/-- F7h (and the shape of seed m11): paging on a column that REPEATS — rows (1,1) (1,2) (1,3) (2,1), cursor column =
+    first key part, batch 2 — silently skips the rest of the run: row 2 is never delivered, no error. -/
+theorem C15_keys_shared_cursor_counterexample :
+    (batchesK true [(0, 1), (1, 1), (2, 1), (3, 2)] 2 5 none).delivered = [0, 1, 3] ∧
+      (batchesK true [(0, 1), (1, 1), (2, 1), (3, 2)] 2 5 none).pkRequired = false := by
+  decide
+
+open KeyCursor in
+/-- The tree being verified reads the cursor from `Schema.PrioritizedPrimaryField`, compares it with nil under
+    ErrPrimaryKeyRequired and pages on clause.PrimaryKey (regenerated): a schema without prioritized field gets NO cursor,
+    hence the honest behaviour of `C15_keys_no_cursor_honest`. -/
+theorem C15_keys_cursor_current_tree (rows : List (Nat × Nat)) (batch fuel : Nat) (hb : 0 < batch) :
+    Gen.findInBatchesCursorFallback = false ∧
+      Gen.findInBatchesCursorField = "result.Statement.Schema.PrioritizedPrimaryField" ∧
+      cursorFor Gen.findInBatchesCursorFallback false = false ∧
+      ((batchesK (cursorFor Gen.findInBatchesCursorFallback false) rows batch (fuel + 1) none).pkRequired = false →
+        (batchesK (cursorFor Gen.findInBatchesCursorFallback false) rows batch (fuel + 1) none).delivered = rows.map (·.1)) := by
+  have h : Gen.findInBatchesCursorFallback = false := by decide
+  refine ⟨h, by decide, by simp [cursorFor, h], ?_⟩
+  simp only [cursorFor, h, Bool.or_false]
+  exact (C15_keys_no_cursor_honest rows batch fuel hb).2
+
+/-- non-vacuity: a two-call chain (string Select replaced by a parameterised one), a table with two rows -/
+example : ReadSelect.find ReadSelect.Facts.good
+    ((({} : ReadSelect.SelState Nat).calls [.strings [[1, 2]], .expr [7]])) none = .list [7] := by decide
+example : (KeyCursor.batchesK true [(0, 1), (1, 2), (2, 3), (3, 5), (4, 9)] 2 6 none).batches = [[0, 1], [2, 3], [4]] := by decide
+example : (KeyCursor.batchesK false [(0, 1), (1, 1), (2, 1)] 2 4 none).pkRequired = true := by decide
 
 end Gorm
